@@ -28,11 +28,17 @@ func verifAct(e *vEnv, r step.RunningStep, given map[string]bool, a int) (closed
 		}
 		err := r.ProvideStageInput("enabling", map[string]any{"enabled": en})
 		verifrt.Assert((err != nil) == given["enabling"], "enabling input is accepted exactly once")
+		if !given["enabling"] {
+			e.enabledFalse = en == false
+		}
 		given["enabling"] = true
 	case 2:
 		in := map[string]any{"input": any(verifrt.NondetVal("in"))}
 		if verifrt.Choice("timeout", 2) == 1 {
 			in["closure_wait_timeout"] = int64(0)
+		}
+		if !given["starting"] && e.stopReturned {
+			e.stoppedBeforeStart = true
 		}
 		err := r.ProvideStageInput("starting", in)
 		verifrt.Assert((err != nil) == given["starting"], "starting input is accepted exactly once")
@@ -40,11 +46,14 @@ func verifAct(e *vEnv, r step.RunningStep, given map[string]bool, a int) (closed
 	case 3:
 		err := r.ProvideStageInput("cancelled", map[string]any{"stop_if": true})
 		verifrt.Assert(err == nil, "stop_if input is accepted")
+		e.stopReturned = true
 	case 4:
 		err := r.Close()
 		verifrt.Assert(err == nil, "Close returns no error")
 		e.h.closeReturned = true
 		return true
+	case 6:
+		verifrt.Settle() // let the step run until it cannot make progress
 	case 5:
 		err := r.ForceClose()
 		verifrt.Assert(err == nil, "ForceClose returns no error")
@@ -78,6 +87,11 @@ func verifEpilogue(e *vEnv, r step.RunningStep, closed bool) {
 	verifrt.Assert(e.execLive == 0, "no plugin execution is still in flight")
 	if e.execEntered > 0 {
 		verifrt.Reach("executed")
+		verifrt.Assert(!e.enabledFalse, "plugin code is executed only if the enabled condition was true or absent")
+		verifrt.Assert(!e.stoppedBeforeStart, "a step whose stop condition fired before it started never executes")
+	}
+	if e.enabledFalse && e.h.finished["enabling"] {
+		verifrt.Assert(e.h.finished["disabled"] || e.h.finished["closed"], "a disabled step reports its disabled output (unless closed first)")
 	}
 	for _, st := range []string{"outputs", "disabled", "deploy_failed", "crashed", "closed"} {
 		if e.h.finished[st] {
@@ -129,8 +143,9 @@ func VerifH_C12_plugin_any_order() {
 	r := verifStart(e)
 	given := map[string]bool{}
 	K := verifrt.Param("K", 3)
+	acts := []int{0, 1, 2, 3, 6}
 	for i := 0; i < K; i++ {
-		verifAct(e, r, given, verifrt.Choice("action", 4))
+		verifAct(e, r, given, acts[verifrt.Choice("action", len(acts))])
 	}
 	verifEpilogue(e, r, false)
 }
